@@ -13,20 +13,20 @@ with `FrappyModel/Generated/C19.lean`.
         self.ports = [int(iface.split('://')[1]) for iface in ifaces if iface.startswith('tcp')]
         self.is_enabled = True
         ...
-        # space left for the description: JSON escapes make a character longer
-        # in the message than in the description itself
+        # (discovery.py:36-72, after the repair)
         self.description = ''
+        ...
         available = MAX_MESSAGE_LEN - len(self._getMessage(2**16-1))
         if available < 0:
             self.log.warn(...)
             self.is_enabled = False
-            return
-        for char in description or '':
-            available -= len(json.dumps(char, ensure_ascii=False).encode('utf-8')) - 2
-            if available < 0:
-                self.log.debug('truncating description for udp discovery')
-                break
-            self.description += char
+        else:
+            for char in description or '':
+                available -= len(json.dumps(char, ensure_ascii=False).encode('utf-8')) - 2
+                if available < 0:
+                    self.log.debug('truncating description for udp discovery')
+                    break
+                self.description += char
 
     def _getMessage(self, port):
         return json.dumps({'SECoP': 'node', 'port': port, 'equipment_id': self.equipment_id,
